@@ -19,12 +19,13 @@ META = {
              "distinct by quantised poses."),
     "assumptions": ["tolerance 1e-8 relative to the scale of the quantities; 5e-6 when a rotation involved lies in the "
                     "library's (0, 2e-6) cut-off band (documented NearZero behaviour)",
-                    "lookAt targets within 1e-3 rad of the world z axis (as seen from the eye) are excluded as degenerate",
+                    "lookAt targets within 1e-3 rad of the world z axis (as seen from the eye) are excluded from the 1e-8 clause as degenerate; targets exactly above/below get their own clause at 3e-5/distance (the library nudges such a target sideways by 1e-5)",
                     "midpoint / twist clauses restricted to relative rotations <= pi-1e-3 (square root / log unique)",
                     "numericalJacobian is exercised on quadratic maps, for which central differences are exact"],
 }
 REQUIRED_REACH = ['general/faser_general.py:mirror', 'general/faser_general.py:tmInterpMidpoint', 'general/faser_general.py:lookAt', 'general/faser_general.py:planeFromThreePoints', 'general/faser_general.py:closeLinearGap', 'general/faser_general.py:closeArcGap', 'general/faser_general.py:IKPath', 'general/faser_general.py:twistToGoal']
-REQUIRED_CLAUSES = ["mirror.local", "mirror.involution", "midpoint.pos", "midpoint.rot", "lookat", "plane", "distance.metric",
+REQUIRED_CLASSES = ["lookat_vertical:above", "lookat_vertical:below"]
+REQUIRED_CLAUSES = ["mirror.local", "mirror.involution", "midpoint.pos", "midpoint.rot", "lookat", "lookat.vertical", "plane", "distance.metric",
                     "arcdistance", "lineargap", "arcgap", "ikpath", "twist2goal", "chainjac", "numjac", "fibo", "unitsphere",
                     "anglemod.scalar", "anglemod.array", "anglemod.six", "anglemod.tm", "anglemod.mr"]
 
@@ -155,6 +156,23 @@ def check_case(case, ctx, tm, fsr, mr):
                 cmp("lookat", "lookat.z_axis", Rl[:, 2], zdir, 1.0)
         else:
             ctx.cls("lookat_degenerate_skipped")
+    # the target exactly above / below the eye (a function of the case, no random draw): the library handles this by nudging the
+    # target sideways by 1e-5, so the local z can only be asked to point at the target to 3e-5 / distance - but it must still point
+    # TOWARDS it (up for a target above, down for a target below), keep the position and be a proper rotation
+    sgn = 1.0 if pc[0] >= 0 else -1.0
+    dist = 0.1 + min(9.0, abs(float(pc[1])))
+    tv = np.concatenate([pa + np.array([0.0, 0.0, sgn * dist]), tb[3:]])
+    lv = guard("lookat.vertical", "lookat.vertical", lambda: fsr.lookAt(mk(ta), mk(tv)))
+    if lv is not None:
+        ctx.clause("lookat.vertical")
+        ctx.cls("lookat_vertical:" + ("above" if sgn > 0 else "below"))
+        Lv = lv.gTM()
+        Rv = Lv[:3, :3]
+        ez = float(np.linalg.norm(Rv[:, 2] - np.array([0.0, 0.0, sgn])))
+        if (tol.maxabs(Lv[:3, 3] - pa) > 1e-8 * scp or tol.maxabs(Rv.T @ Rv - np.eye(3)) > 1e-8 or abs(np.linalg.det(Rv) - 1) > 1e-8
+                or not (ez <= 3e-5 / dist + 1e-8)):
+            ctx.violation("lookat.vertical", "lookat.vertical/" + ("above" if sgn > 0 else "below"),
+                          {"z_axis": Rv[:, 2].tolist(), "z_err": ez, "dist": dist, "pos_err": tol.maxabs(Lv[:3, 3] - pa)}, case)
 
     # ---- plane through three points ------------------------------------------------------------
     nrm = np.cross(pb - pa, pc - pa)
